@@ -317,7 +317,67 @@ def run(ctx, n_override=None):
                                 for (_, t2, _, s2) in printed for sy, c in cp.items())
                 res.violations.append(dict(key='reread:decimal-comma-precision-multiple-of-3' if ambiguous else 'reread:changed', desc='printed %r re-reads as %s, was %s %s' % (txt, g, exact, sym),
                                            case=dict(journal='\n'.join(lines)), observed=str(g), required='%s %s' % (exact, sym)))
+    plain_totals(ctx, rng, res)
     return res
+
+
+def plain_totals(ctx, rng, res):
+    """sums of commodity-less amounts (counts, units, plain numbers): a total is displayed with as many decimals as its most
+    precise summand, so what is printed for it - the register's amount and running total, the balance - denotes exactly the
+    sum, whatever the order the amounts came in"""
+    for j in range(ctx.scale(25, 150)):
+        n = rng.randrange(2, 9)
+        vals = []
+        lines = []
+        for i in range(n):
+            dec = rng.choice([0, 0, 1, 2, 3, 5])
+            q = F(rng.randrange(-99999, 99999), 10 ** dec)
+            t = ('%.' + str(dec) + 'f') % float(abs(q)) if dec else str(abs(q.numerator))
+            # the exact decimal text (floats are only used for widths above; rebuild from integers)
+            m = abs(q.numerator * 10 ** dec // q.denominator)
+            t = str(m).rjust(dec + 1, '0')
+            t = (t[:-dec] + '.' + t[-dec:]) if dec else t
+            vals.append(q)
+            lines += ['2020/01/%02d p%d' % (1 + i, i), '    Assets:Units    %s%s' % ('-' if q < 0 else '', t), '    Equity:Open', '']
+        path = ctx.path('plain%d.dat' % (j % 4))
+        text = '\n'.join(lines)
+        open(path, 'w').write(text)
+        st, out, err = lib.run_ledger(['-f', path, 'reg', '^Assets:Units', '--format', '%(amount)|%(total)\\n'])
+        rows = [l.split('|') for l in out.decode().split('\n') if '|' in l]
+        st2, out2, err2 = lib.run_ledger(['-f', path, 'bal', '^Assets:Units', '--flat', '--no-total', '--empty', '--format', '%(total)\\n'])
+        res.evaluations += 1
+        res.count('plain-totals')
+        res.nontrivial.add('plain:' + text)
+        run = F(0)
+        bad = None
+        nz = [q for q in vals]
+        shown_rows = [r for r in rows]
+        k = 0
+        for q in nz:
+            run += q
+            if q == 0:
+                continue                      # a zero row is not shown without --empty
+            if k >= len(shown_rows):
+                bad = 'row %d missing' % k
+                break
+            a_txt, t_txt = shown_rows[k]
+            k += 1
+            try:
+                if F(a_txt.strip()) != q or F(t_txt.strip()) != run:
+                    bad = 'row %d shows amount %r total %r, exact %s and %s' % (k - 1, a_txt, t_txt, q, run)
+                    break
+            except ValueError:
+                bad = 'row %d unreadable: %r' % (k - 1, shown_rows[k - 1])
+                break
+        if not bad:
+            try:
+                if F(out2.decode().strip() or '0') != run:
+                    bad = 'balance shows %r, exact %s' % (out2.decode().strip(), run)
+            except ValueError:
+                bad = 'balance unreadable: %r' % out2.decode().strip()
+        if bad:
+            res.violations.append(dict(key='print:commodity-less-total-not-exact', desc='commodity-less amounts: ' + bad, case=dict(journal=text),
+                                       observed=bad, required='every displayed amount and total denotes the exact sum'))
 
 
 def search(ctx, broken):
